@@ -1,6 +1,6 @@
 """Relational runs on the real classes for C14 (reproducible / isolated / inputs untouched),
 C15 (time labels ignored, recommendation queries harmless) and C16 (affine equivariance)."""
-import random, math, copy
+import random, math, copy, sys
 from common import *
 from framework import Case
 import algo_cases
@@ -12,6 +12,7 @@ CFG_KEYS = ("kind", "K", "d", "box", "T", "rmode", "qmode", "params")
 def base_force(meta, **extra):
     f = {k: copy.deepcopy(meta[k]) for k in CFG_KEYS}
     f["bmode"] = meta["bmode"]
+    f["mid_queries"] = []
     f.update(extra)
     return f
 
@@ -47,7 +48,7 @@ C15_QUERY_ALGOS = ["T_HOO", "HCT", "VHCT", "Zooming", "POO"]
 
 
 def c15_group(seed, idx, algo):
-    base = gen_algo_case(seed, idx, algo, force={"t0": 1, "query_rounds": []})
+    base = gen_algo_case(seed, idx, algo, force={"t0": 1, "query_rounds": [], "mid_queries": []})
     out = [base]
     if base.trace is None or base.trace["stopped"]:
         return out
@@ -85,7 +86,7 @@ def affine_box(box, a, b):
 def c16_group(seed, idx, algo):
     rnd = random.Random(f"c16-{seed}-{idx}-{algo}")
     exact = rnd.random() < 0.7
-    force0 = {"t0": 1, "query_rounds": [], "rmode": rnd.choice(["dyadic", "negative", "few", "const", "alt", "zero"])}
+    force0 = {"t0": 1, "query_rounds": [], "mid_queries": [], "rmode": rnd.choice(["dyadic", "negative", "few", "const", "alt", "zero", "objective", "objective"])}
     if exact:
         force0["bmode"] = rnd.choice(["unit", "shift", "pow2", "neg"])
         force0["qmode"] = rnd.choice(["dyadic", "half", "end"])
@@ -101,7 +102,11 @@ def c16_group(seed, idx, algo):
     if not doo_default:
         maps.append(("scale-pow2", sc, [0.0] * d, True))
     tr = [float(rnd.randint(-64, 64)) * 2.0 ** rnd.randint(-3, 3) for _ in range(d)]
-    tr_exact = exact and kind in ("binary", "dimBinary", "randBinary")
+    # a translation is exact only while every coordinate keeps few fractional bits: midpoint partitions, or random
+    # splits at fractions 0, 1/2, 1 (dyadic fractions k/2^6 add up to six bits per level and overflow the mantissa)
+    tr_exact = exact and (kind in ("binary", "dimBinary") or (kind == "randBinary" and base.meta["qmode"] in ("half", "end")))
+    if algo == "VROOM" and base.meta["qmode"] == "dyadic":
+        tr_exact = False
     maps.append(("translate", [1.0] * d, tr, tr_exact))
     if not doo_default:
         maps.append(("affine", sc, tr, tr_exact))
@@ -114,7 +119,10 @@ def c16_group(seed, idx, algo):
         maps.append(("translate-far", [1.0] * d, [float(rnd.choice([-1, 1])) * 2.0 ** rnd.randint(18, 24) for _ in range(d)], True))
     for nm, a, b, is_exact in maps:
         nb = affine_box(base.meta["box"], a, b)
-        v = gen_algo_case(seed, idx, algo, force=base_force(base.meta, box=nb, t0=1, query_rounds=[]))
+        if base.meta["rmode"] == "objective" and not is_exact:
+            continue      # rewards computed from the points: only maps that are exact in floating point keep them identical
+        v = gen_algo_case(seed, idx, algo, force=base_force(base.meta, box=nb, t0=1, query_rounds=[], mid_queries=[],
+                                                             reward_box=base.meta["box"], pullback=(a, b)))
         v.name += "-" + nm
         v.meta["variant"] = nm
         if v.trace is None:
@@ -185,6 +193,31 @@ def last_of(a):
         return ["EXC", type(e).__name__]
 
 
+FRESH_SCRIPT = """
+import sys, json
+sys.path.insert(0, %r)
+import relational
+args = json.loads(sys.stdin.read())
+pts, last, box = relational.plain_run(args['algo'], args['meta'], args['rewards'], args['seed'])
+print('RESULT ' + json.dumps({'pts': pts, 'last': last, 'box_ok': box == args['meta']['box']}))
+"""
+
+
+def fresh_plain_run(algo, meta, rewards, np_seed):
+    """the same documented loop in a brand-new interpreter: the reference for 'an instance behaves as if it
+    were alone in the process'"""
+    import subprocess, json, os
+    m = {k: meta[k] for k in ("kind", "K", "box", "params", "t0")}
+    p = subprocess.run([sys.executable, "-c", FRESH_SCRIPT % os.path.dirname(os.path.abspath(__file__))],
+                       input=json.dumps({"algo": algo, "meta": m, "rewards": rewards, "seed": np_seed}).encode(),
+                       stdout=subprocess.PIPE, stderr=subprocess.DEVNULL, timeout=300)
+    for line in p.stdout.decode().split("\n"):
+        if line.startswith("RESULT "):
+            r = json.loads(line[7:])
+            return r["pts"], r["last"]
+    return None
+
+
 def c14_group(seed, idx, algo):
     base = gen_algo_case(seed, idx, algo, force={"t0": 1, "query_rounds": [], "rmode": random.Random(f"c14r-{seed}-{idx}").choice(["dyadic", "negative", "few", "alt"])})
     out = [base]
@@ -195,8 +228,26 @@ def c14_group(seed, idx, algo):
     rnd = random.Random(f"c14-{seed}-{idx}-{algo}")
     s = rnd.randint(0, 2 ** 31 - 1)
     try:
+        # a decoy instance of the same class, one constructor argument changed, runs first in this process
+        alt = ADAPTERS[algo].gen_params(rnd, meta["T"]) if hasattr(ADAPTERS[algo], "gen_params") else {}
+        keys = [k for k in meta["params"] if k in alt and alt[k] != meta["params"][k] and k not in ("base", "n", "rounds", "h_max", "k")]
+        if keys and idx % 2 == 0:
+            kk = rnd.choice(keys)
+            try:
+                plain_run(algo, dict(meta, params=dict(meta["params"], **{kk: alt[kk]})), rewards[:40], s + 7)
+                base.tags["c14-decoy-runs"] += 1
+            except Exception:
+                pass
         r1 = plain_run(algo, meta, rewards, s)
         r2 = plain_run(algo, meta, rewards, s)
+        if idx % 2 == 0:
+            ref = fresh_plain_run(algo, meta, rewards, s)
+            if ref is not None:
+                base.tags["c14-fresh-process-references"] += 1
+                if [list(p) for p in r1[0]] != ref[0] or list(r1[1]) != ref[1]:
+                    i = first_diff_idx(r1[0], ref[0])
+                    base.fail("C14", "depends-on-process-history", f"the run differs from the same run in a fresh interpreter at round {i} "
+                              f"(another instance of the class ran earlier in this process)", algo=algo)
         if r1[0] != r2[0] or r1[1] != r2[1]:
             i = first_diff_idx(r1[0], r2[0])
             base.fail("C14", "not-reproducible", f"two runs with np.random.seed({s}) differ at round {i}", algo=algo)
